@@ -194,3 +194,97 @@ func VerifProcessorReplaceHead() {
 	p.Close()
 	zzverif.Cover("processor_replace_head_done")
 }
+
+// vHeapOK: the queue's representation invariant - every parent is not later than its children, every item knows its
+// position, and the key index maps each key to its item
+func vHeapOK(q *queue[int, *vItem]) bool {
+	h := *q.heap
+	ok := len(q.items) == len(h)
+	for i, it := range h {
+		if it == nil || it.index != i || q.items[it.value.key] != it {
+			return false
+		}
+		if i > 0 {
+			parent := h[(i-1)/2]
+			ok = zzverif.And(ok, !it.value.due.Before(parent.value.due))
+		}
+	}
+	return ok
+}
+
+// One queue operation from ANY valid state (inductive step, so that queues built by any history are covered, not only
+// the few items a scheduling harness can enqueue): a heap of 0..7 items with symbolic due times satisfying the
+// invariant; after Insert (new key / replacing an existing key with an earlier or later time), Remove (any position /
+// absent key), Update or Pop the invariant holds again, the size is right, Pop returned an item not later than any
+// other, and Peek shows an item not later than any other - which is what makes callbacks come in scheduled-time order.
+//
+//verif:harness prop=C06 name=queue_heap_step unwind=24
+func VerifQueueHeapStep() {
+	n := zzverif.Choose("size", 8)
+	q := newQueue[int, *vItem]()
+	base := zzverif.TimeFromNanos(1_000_000_000)
+	for i := 0; i < n; i++ {
+		d := zzverif.Int64("due")
+		zzverif.Assume(d >= 0)
+		zzverif.Assume(d <= 1_000_000)
+		it := &queueItem[int, *vItem]{value: &vItem{key: i, due: base.Add(time.Duration(d)), id: i}, index: i}
+		*q.heap = append(*q.heap, it)
+		q.items[i] = it
+	}
+	zzverif.Assume(vHeapOK(&q))
+	minOK := func() {
+		if q.Len() == 0 {
+			return
+		}
+		top, ok := q.Peek()
+		zzverif.Assert(ok, "peek_on_non_empty")
+		for _, it := range *q.heap {
+			zzverif.Assert(!it.value.due.Before(top.due), "peek_is_earliest")
+		}
+	}
+	nd := zzverif.Int64("new_due")
+	zzverif.Assume(nd >= 0)
+	zzverif.Assume(nd <= 1_000_000)
+	switch zzverif.Choose("op", 5) {
+	case 0: // a new key
+		q.Insert(&vItem{key: 100, due: base.Add(time.Duration(nd)), id: 100}, zzverif.Bool("replace_flag"))
+		zzverif.Assert(q.Len() == n+1, "insert_new_key_grows")
+	case 1: // an existing key
+		zzverif.Assume(n > 0)
+		k := zzverif.Choose("key", n)
+		repl := zzverif.Bool("replace_flag")
+		q.Insert(&vItem{key: k, due: base.Add(time.Duration(nd)), id: 200}, repl)
+		zzverif.Assert(q.Len() == n, "insert_existing_key_keeps_size")
+		zzverif.Assert((q.items[k].value.id == 200) == repl, "replaced_iff_asked")
+	case 2:
+		k := zzverif.Choose("key", n+1) // n = an absent key
+		if k == n {
+			k = 999
+		}
+		q.Remove(k)
+		_, still := q.items[k]
+		zzverif.Assert(!still, "removed_key_gone")
+		if k == 999 {
+			zzverif.Assert(q.Len() == n, "remove_absent_is_noop")
+		} else {
+			zzverif.Assert(q.Len() == n-1, "remove_shrinks")
+		}
+	case 3:
+		zzverif.Assume(n > 0)
+		k := zzverif.Choose("key", n)
+		q.Update(&vItem{key: k, due: base.Add(time.Duration(nd)), id: 300})
+		zzverif.Assert(q.Len() == n && q.items[k].value.id == 300, "update_replaces_in_place")
+	case 4:
+		it, ok := q.Pop()
+		zzverif.Assert(ok == (n > 0), "pop_iff_non_empty")
+		if ok {
+			zzverif.Assert(q.Len() == n-1, "pop_shrinks")
+			for _, o := range *q.heap {
+				zzverif.Assert(!o.value.due.Before(it.due), "pop_returns_earliest")
+			}
+		}
+	}
+	zzverif.Assert(vHeapOK(&q), "queue_invariant_preserved")
+	minOK()
+	zzverif.Cover("queue_heap_step_done")
+}
